@@ -62,6 +62,8 @@ MUTANTS = {
          "        if res['asset_type'] == 'OrderBook': # some parameters not relevant\n            res['full_exec'] = False\n"),
         ("forget-is-date", S, "        res['is_date'] = np.issubdtype(obj.dtype, np.datetime64)", "        res['is_date'] = False"),
         ("no-portfolio-grid", S, "            if 'timegrid' in obj:\n                res.set_timegrid(obj['timegrid'])", "            pass"),
+        ("int-arrays-become-float", S, "            res = np.asarray(obj['np_list'])",
+         "            res = np.asarray(obj['np_list'])\n            if res.dtype.kind in 'iub': res = res.astype(float)"),
         ("swap-grid-start-end-freq", S, "               'main_time_unit'     : obj.__dict__['main_time_unit']",
          "               'main_time_unit'     : 'h'"),
     ],
